@@ -1,5 +1,6 @@
 import EinoV.Oracle.C20Parse
 import EinoV.Expected.C20
+import EinoV.Oracle.C20Decl
 
 namespace EinoV.Oracle.C20
 open Lean EinoV EinoV.Build EinoV.Oracle.C20Parse
@@ -9,6 +10,7 @@ open Lean EinoV EinoV.Build EinoV.Oracle.C20Parse
     pre-node handler list is still what it was when compiled, and whether the outcomes depend
     on the two addBranch facts that belong to C07 (such cases are compared by C07 only). -/
 def handle (c : Json) : JE Json := do
+  if J.strD c "stream" "" == "decl" then return (← C20Decl.handle c)
   let cs ← parseCase c
   let f := Expected.C20.facts
   let (bEnd, outs, rs) := run f cs.im Ord.id cs.b0 cs.ops
